@@ -133,7 +133,11 @@ static void one_case(const Args &a, long k, FaceSet &fs, bool hostile, bool real
             size_t at = r.below(uint32_t(units - 1));
             if (e == 0) static_cast<uint8_t *>(raw)[at] = uint8_t(0x80 + r.below(0x80));
             else if (e == 1) static_cast<uint16_t *>(raw)[at] = uint16_t(0xD800 + r.below(0x800));
-            else static_cast<uint32_t *>(raw)[at] = r.chance(0.5) ? 0x110000 + r.below(1000) : 0xD800 + r.below(0x800);
+            else {
+                // UTF-32: values at the edges of the surrogate block and of the code space (ill-formed ones AND their valid neighbours)
+                static const uint32_t edges[] = {0xD7FF, 0xD800, 0xD801, 0xDBFF, 0xDC00, 0xDFFE, 0xDFFF, 0xE000, 0x10FFFF, 0x110000, 0x1D800, 0x10DFFF, 0x7FFFFFFF, 0x80000000u, 0xFFFFFFFFu, 0xFFFFD800u};
+                static_cast<uint32_t *>(raw)[at] = r.chance(0.6) ? edges[r.below(sizeof edges / sizeof edges[0])] : r.chance(0.5) ? 0x110000 + r.below(1000) : 0xD800 + r.below(0x800);
+            }
         }
         buf = raw; nch = units - 1;
     }
@@ -160,6 +164,17 @@ static void one_case(const Args &a, long k, FaceSet &fs, bool hostile, bool real
         StructReport sr;
         std::vector<const gr_slot *> order = walk_struct(seg, nchars, realgids ? fs.nglyphs : 0, f, font, sr);
         if (illformed && gr_seg_n_cinfo(seg) > nch) sr.c05.push_back(fmt("ncinfo-ill %u char-infos for %zu code units", gr_seg_n_cinfo(seg), nch));
+        if (illformed && e == 2) {
+            // UTF-32 is one unit per character whatever the damage: every unit that is a scalar value decodes as itself, every other as U+FFFD
+            const uint32_t *u = static_cast<const uint32_t *>(raw);
+            if (gr_seg_n_cinfo(seg) != nch) sr.c05.push_back(fmt("ncinfo-utf32 %u char-infos for %zu UTF-32 units before the NUL", gr_seg_n_cinfo(seg), nch));
+            else for (unsigned i = 0; i < nch; ++i) {
+                const gr_char_info *ci = gr_seg_cinfo(seg, i);
+                uint32_t want = is_scalar(u[i]) ? u[i] : 0xFFFD;
+                if (gr_cinfo_unicode_char(ci) != want) { sr.c05.push_back(fmt("decoded UTF-32 unit %08x at %u decodes as %x, expected %x", u[i], i, gr_cinfo_unicode_char(ci), want)); break; }
+                if (gr_cinfo_base(ci) != i) { sr.c05.push_back(fmt("base UTF-32 char %u base %zu", i, gr_cinfo_base(ci))); break; }
+            }
+        }
         if (!illformed)
             for (unsigned i = 0; i < gr_seg_n_cinfo(seg) && i < t.size(); ++i) {
                 const gr_char_info *ci = gr_seg_cinfo(seg, i);
